@@ -288,6 +288,22 @@ func runC11(w *core.WorkerCtx, idx int) *core.CaseResult {
 	}
 	compare("first configuration + assignment", text, orig, genBytes, want)
 
+	// phase 1b: a new configuration that differs ONLY in the external labels (which the configuration hash ignores)
+	if len(res.Viol) == 0 {
+		specE := clone(spec)
+		specE.ExternalLabels = map[string]string{"cluster": "relabelled-" + fmt.Sprint(idx%7), "region": "eu", "replica": "z"}
+		textE := cfggen.Render(specE, cfggen.Style{Indent: 2})
+		if origE, err := config.Load(textE, false, log.NewNopLogger()); err == nil {
+			if err := in.PushConfig(textE); err != nil {
+				res.Inconcl = "sidecar rejected the external-label change: " + err.Error()
+				return res
+			}
+			if gb, err := in.GeneratedConfig(); err == nil {
+				compare("after a change of external labels only", textE, origE, gb, want)
+			}
+		}
+	}
+
 	// phase 2: a new configuration arrives while targets are assigned (a job added, the last job removed when
 	// there are several, a setting changed): the assignment of surviving jobs must still be in the file
 	if len(res.Viol) == 0 {
@@ -358,7 +374,7 @@ func init() {
 	core.Register(&core.Prop{
 		ID:    "C11",
 		Level: "exploration",
-		Rule: "differential against the vendored Prometheus loader: case = generated configuration (1-4 jobs, every auth kind: basic, bearer_token, authorization, tls (files or inline), oauth2; SD kinds static/file/kubernetes/dns/http; global, rule files, alerting with and without credentials, 0-2 remote_write and remote_read entries with bearer tokens / passwords / authorization, all secrets unique recognisable strings) + an assignment (jobs with 0/1/2/5 targets, optionally targets of a job that does not exist) + self-monitoring on/off, pushed through a real sidecar's API; then a second configuration (a job added, the last job removed, a setting changed) while targets are assigned, then a changed assignment under it - the file is re-checked after each phase; " +
+		Rule: "differential against the vendored Prometheus loader: case = generated configuration (1-4 jobs, every auth kind: basic, bearer_token, authorization, tls (files or inline), oauth2; SD kinds static/file/kubernetes/dns/http; global, rule files, alerting with and without credentials, 0-2 remote_write and remote_read entries with bearer tokens / passwords / authorization, all secrets unique recognisable strings) + an assignment (jobs with 0/1/2/5 targets, optionally targets of a job that does not exist) + self-monitoring on/off, pushed through a real sidecar's API; then a configuration differing only in external labels, then a second configuration (a job added, the last job removed, a setting changed) while targets are assigned, then a changed assignment under it - the file is re-checked after each phase; " +
 			"the generated file is loaded with config.Load and compared field-wise with the loaded original (jobs and order, static entries <-> assigned hashes, scheme/proxy/auth removal, kept settings, byte scan for job secrets, global/rules/alerting/remote sections via YAML rendering plus a reflective walk over every Secret value); " +
 			"non-trivial = every case the sidecar accepts; distinct = hash of the text, self-monitor flag and assignment size",
 		Assumptions: []string{"secrets use a YAML-plain alphabet (no quoting needed)", "sections are compared through yaml.Marshal of the loaded structs plus the reflective secret walk"},
